@@ -23,7 +23,7 @@ ASSUMPTIONS = [
     "'tree left as it was' = every field, child order, object identity and the registry equal the pre-snapshot",
     "validity before/after is decided by the real validate.tree (judged separately by C01-C05)",
 ]
-REQUIRED = ["expansions_beside_a_second_load_of_the_same_model", "references_in_the_other_unicode_composition", "ids_differing_in_unicode_composition_only", "second_round_after_source_was_replaced", "second_round_after_source_was_removed", "expansions", "references_expanded", "valid_before_and_after", "reference_followed_by_siblings", "fault_dangling", "fault_duplicate",
+REQUIRED = ["trees_naming_identifier_systems", "expansions_of_a_part_of_a_bigger_document", "ids_used_3_times", "expansions_beside_a_second_load_of_the_same_model", "references_in_the_other_unicode_composition", "ids_differing_in_unicode_composition_only", "second_round_after_source_was_replaced", "second_round_after_source_was_removed", "expansions", "references_expanded", "valid_before_and_after", "reference_followed_by_siblings", "fault_dangling", "fault_duplicate",
             "source_after_reference_in_document_order", "source_before_reference_in_document_order", "copies_checked_for_aliasing"]
 EXHAUSTIVE = {"quick": False, "thorough": False}
 
@@ -329,6 +329,22 @@ def second_round(ctx, root, variant, src_idx, wit):
     return True
 
 
+def in_document(root, outside):
+    """Hangs root below a document node, beside a metadata island holding the `outside` elements [(name, id attribute)]."""
+    holder = Node("verifDocument" if root.name == "eml" else "eml")
+    holder.add_child(root)
+    am = Node("additionalMetadata")
+    md = Node("metadata")
+    am.add_child(md)
+    holder.add_child(am)
+    for name, idv in outside:
+        x = Node(name)
+        x.add_attribute("id", idv)
+        x.add_child(Node("verifOutsideChild", content="outside"))
+        md.add_child(x)
+    return holder
+
+
 def one(ctx, gen, i):
     rng = ctx.rng
     root, pairs = build(rng, gen)
@@ -383,10 +399,33 @@ def one(ctx, gen, i):
             judge_ok(ctx, root, None, log + ["two ids that differ in Unicode composition only"])
         emlkit.discard(root)
         return
+    if i % 5 == 1:
+        # identifier systems named on the document, on referenced elements and on references (knb, a repository URL, an editor's name):
+        # a reference names an id, whatever system anybody mentions
+        systems = ["knb", "https://pasta.edirepository.org", "ezEML", ""]
+        if rng.random() < 0.5:
+            root.add_attribute("system", rng.choice(systems))
+        for r_, s_ in pairs:
+            if rng.random() < 0.6:
+                s_.add_attribute("system", rng.choice(systems))
+            if rng.random() < 0.6:
+                r_.find_child("references").add_attribute("system", rng.choice(systems))
+            if rng.random() < 0.3:
+                s_.add_attribute("scope", rng.choice(["document", "system"]))
+        ctx.count("trees_naming_identifier_systems")
+        log.append("system attributes")
+    outside = None
     mode = rng.random()
+    if i % 4 == 2 and mode >= 0.55 or i % 8 == 2:
+        # the expanded tree is a part of a bigger document (an editor expanding the dataset only): ids of elements outside it are none
+        # of its business - an id out there may repeat one inside, and a reference that dangles inside stays dangling
+        outside = [["unit", pairs[0][1].attributes["id"]], ["unit", "no-such-id"], ["unit", "SRC-1"], [pairs[0][1].name, "outside-1"]]
+        in_document(root, outside)
+        ctx.count("expansions_of_a_part_of_a_bigger_document")
+        log.append("part of a bigger document")
     if mode < 0.55:
-        first = snapshot.to_plain(root) if i % 3 == 0 else None
-        judge_ok(ctx, root, pairs, log)
+        first = snapshot.to_plain(root) if i % 3 == 0 and outside is None else None
+        judge_ok(ctx, root, pairs, log, {"tree": snapshot.to_plain(root), "kind": "resolvable", "how": log, "outside": outside} if outside else None)
         if first is not None and not any(n.name == "references" for n in snapshot.walk(root)):
             variant, src_idx = rng.choice(["replaced-source", "removed-source"]), rng.randrange(50)
             second_round(ctx, root, variant, src_idx, {"tree": first, "kind": "resolvable", "how": log, "second_round": [variant, src_idx]})
@@ -398,15 +437,21 @@ def one(ctx, gen, i):
         pairs[j][0].find_child("references").content = rng.choice([v for v in ["no-such-id", "", None, None, "SRC-1", real + " ", " " + real, real + "\n",
                                                                                "\n    " + real + "\n  ", real.upper(), real[:-1], real + "0"]
                                                                    if v not in taken])
-        judge_fault(ctx, root, "dangling", log + [f"dangling@{j}/{len(pairs)}"])
+        judge_fault(ctx, root, "dangling", log + [f"dangling@{j}/{len(pairs)}"],
+                    {"tree": snapshot.to_plain(root), "kind": "dangling", "how": log, "outside": outside} if outside else None)
     else:
         nodes = [n for n in treegen.all_nodes(root) if "id" in n.attributes]
-        a, b = rng.sample(nodes, 2) if len(nodes) >= 2 else (None, None)
-        if a is None:
+        # (an id cloned once, twice, three times - an editor's "duplicate" button pressed repeatedly)
+        uses = rng.choice([2, 2, 3, 4, 5])
+        group = rng.sample(nodes, min(uses, len(nodes))) if len(nodes) >= 2 else []
+        if len(group) < 2:
             emlkit.discard(root)
             return
-        b.add_attribute("id", a.attributes["id"])
-        judge_fault(ctx, root, "duplicate", log + ["duplicate id"])
+        for b in group[1:]:
+            b.add_attribute("id", group[0].attributes["id"])
+        ctx.count(f"ids_used_{len(group)}_times")
+        judge_fault(ctx, root, "duplicate", log + [f"id used {len(group)} times"],
+                    {"tree": snapshot.to_plain(root), "kind": "duplicate", "how": log, "outside": outside} if outside else None)
     if i % 97 == 0:
         ctx.sample({"root": root.name, "references": log, "mode": "resolvable" if mode < 0.55 else "fault"})
     emlkit.discard(root)
@@ -420,6 +465,8 @@ def run(ctx, params):
 
 def replay(ctx, witness):
     root = snapshot.from_plain(Node, witness["tree"])
+    if witness.get("outside"):
+        in_document(root, witness["outside"])
     if witness.get("second_round"):
         try:
             references.expand(root)
